@@ -21,6 +21,7 @@ def model_analyze(ctx, dump, cfg, root):
     wf = [0, 0]
     hyp = [0, 0]
     lines_ok = [0, 0]
+    impl_ok = [0, 0]
     for line in out.split("\n"):
         f = line.split(" ")
         if f[0] == "D":
@@ -36,13 +37,16 @@ def model_analyze(ctx, dump, cfg, root):
         elif f[0] == "L":
             lines_ok[0] += 1
             lines_ok[1] += int(f[2])
+        elif f[0] == "T":
+            impl_ok[0] += 1
+            impl_ok[1] += int(f[2])
         elif f[0] == "W":
             wf[0] += 1
             wf[1] += int(f[2])
         elif f[0] == "A":
             annots[UN(f[1])] = UN(f[2]) if len(f) > 2 else ""
     return {"diags": [diags[k] for k in sorted(diags)], "panics": panics, "annots": annots, "rc": rc, "stderr": err[-2000:],
-            "packages": wf[0], "packages_wf": wf[1], "packages_lines_ok": lines_ok[1], "ignore_comments_in_decls": hyp[0], "ignore_comments_meeting_hypotheses": hyp[1]}
+            "packages": wf[0], "packages_wf": wf[1], "packages_lines_ok": lines_ok[1], "packages_impl_inputs_ok": impl_ok[1], "ignore_comments_in_decls": hyp[0], "ignore_comments_meeting_hypotheses": hyp[1]}
 
 
 def skel(ctx, root, dump, tests=True):
